@@ -15,8 +15,9 @@
    [W] (the specification world: resolution orders) and [hashable] are arbitrary. *)
 From Coq Require Import List Arith Bool.
 Import ListNotations.
-From ZI Require Import Model.Ro Model.Adapter Model.Components Spec.Components Proofs.Components
-  Proofs.ComponentsLookup Gen.ComponentsKernel Proofs.ComponentsKernel.
+From ZI Require Import Model.Ro Model.Adapter Model.Lookup Model.RegSys Model.Components Model.ComponentsSys
+  Spec.Components Proofs.Components Proofs.ComponentsLookup Gen.ComponentsKernel Proofs.ComponentsKernel
+  Proofs.ComponentsSys Proofs.ComponentsRepair.
 
 (* registered*() list exactly the live registrations: each listing IS the ledger of the history
    (in order; the ledger is defined by filter / append / replace on plain lists) *)
@@ -59,6 +60,18 @@ Theorem C16_registries_determined_by_listings :
 Proof. exact registries_determined_lemma. Qed.
 Print Assumptions C16_registries_determined_by_listings.
 
+(* F13 (recorded finding): the literal reading "answers as registries populated with exactly the
+   listed registrations would" fails by identity for getAllUtilitiesRegisteredFor: it can return a
+   component that no listing mentions (it is == to a listed one, which is all that
+   C16_registries_determined_by_listings promises) *)
+Theorem C16_subscribed_utility_may_be_unlisted :
+  exists W hashable cls ops p v,
+    (forall a b, veq a = veq b -> hashable a = hashable b) /\ forallb (ok_op cls) ops = true /\
+    In v (getAllUtilitiesRegisteredFor W (final W hashable ops) p) /\
+    forall p' n c i f, In (RU p' n c i f) (registeredUtilities (final W hashable ops)) -> vid c <> vid v.
+Proof. exact stale_utility_lemma. Qed.
+Print Assumptions C16_subscribed_utility_may_be_unlisted.
+
 (* rebuildUtilityRegistryFromLocalCache() finds nothing to repair in any reachable state:
    (needed_registered, did_not_register, needed_subscribed, did_not_subscribe) = (0, n, 0, n) *)
 Theorem C16_probe_finds_nothing : forall (W : world) (hashable : value -> bool) (cls : nat -> nat),
@@ -69,16 +82,39 @@ Theorem C16_probe_finds_nothing : forall (W : world) (hashable : value -> bool) 
 Proof. exact probe_lemma. Qed.
 Print Assumptions C16_probe_finds_nothing.
 
+(* rebuildUtilityRegistryFromLocalCache in general ([rebuildUtilityRegistry rebuild st] returns the
+   new state and the four counters).  rebuild=False is the probe and changes nothing. *)
+Theorem C16_probe_is_rebuild_false : forall (W : world) st,
+  rebuildUtilityRegistry W false st = (st, probe st).
+Proof. exact rebuild_false_is_probe. Qed.
+Print Assumptions C16_probe_is_rebuild_false.
+
+(* rebuild=True repairs: from ANY state whose utility registrations have distinct keys -- reachable
+   or not, however the ``utilities`` registry was tampered with -- afterwards every listed utility
+   is registered (an ==-equal object under its key) and subscribed, nothing else of the object
+   changed, and the probe finds nothing more to repair.  (It only adds: entries put into the
+   registry behind the object's back are not removed.) *)
+Theorem C16_probe_repairs : forall (W : world) st, NoDup (map fst (c_ureg st)) ->
+  let st' := fst (rebuildUtilityRegistry W true st) in
+  (forall p n v i f, In ((p, n), (v, i, f)) (c_ureg st) ->
+     (exists v', registered (c_utils st') [] p n = Some v' /\ v_eq v' v = true)
+     /\ subscribed (c_utils st') [] (Some p) v = true)
+  /\ c_ureg st' = c_ureg st /\ c_cache st' = c_cache st /\ c_adapters st' = c_adapters st
+  /\ c_areg st' = c_areg st /\ c_sreg st' = c_sreg st /\ c_hreg st' = c_hreg st
+  /\ probe st' = (0, length (c_ureg st), 0, length (c_ureg st)).
+Proof. exact rebuild_true_repairs. Qed.
+Print Assumptions C16_probe_repairs.
+
 (* The event clause in full -- "each call emits exactly one Unregistered event per registration
    it removed, then one Registered event per registration it added, and nothing else" -- reads
        forall W hashable cls, hash_cls -> forall ops o, ok ops -> ok o ->
-         events_ok (events of the call o after ops) (spec_step (ledger_of ops) o) = true.
+         events_ok (events of the call o after ops) o (spec_step (ledger_of ops) o) = true.
    It is FALSE of the faithful model (findings F9 and F11): *)
 Theorem C16_events_exact_refuted :
   ~ (forall (W : world) (hashable : value -> bool) (cls : nat -> nat),
        (forall a b, veq a = veq b -> hashable a = hashable b) ->
        forall ops o, forallb (ok_op cls) ops = true -> ok_op cls o = true ->
-       events_ok (evs_of (cstep W hashable (final W hashable ops) o)) (spec_step (ledger_of ops) o) = true).
+       events_ok (evs_of (cstep W hashable (final W hashable ops) o)) o (spec_step (ledger_of ops) o) = true).
 Proof. exact events_exact_refuted_lemma. Qed.
 Print Assumptions C16_events_exact_refuted.
 
@@ -89,7 +125,7 @@ Theorem C16_events_exact_refuted_multi_removal :
     (forall a b, veq a = veq b -> hashable a = hashable b) /\
     forallb (ok_op cls) ops = true /\ ok_op cls o = true /\
     multi_removal (ledger_of ops) o = true /\
-    events_ok (evs_of (cstep W hashable (final W hashable ops) o)) (spec_step (ledger_of ops) o) = false.
+    events_ok (evs_of (cstep W hashable (final W hashable ops) o)) o (spec_step (ledger_of ops) o) = false.
 Proof. exact events_refuted_multi_lemma. Qed.
 Print Assumptions C16_events_exact_refuted_multi_removal.
 
@@ -100,7 +136,7 @@ Theorem C16_events_exact_refuted_adapter_overwrite :
     (forall a b, veq a = veq b -> hashable a = hashable b) /\
     forallb (ok_op cls) ops = true /\ ok_op cls o = true /\
     adapter_overwrite (ledger_of ops) o = true /\
-    events_ok (evs_of (cstep W hashable (final W hashable ops) o)) (spec_step (ledger_of ops) o) = false.
+    events_ok (evs_of (cstep W hashable (final W hashable ops) o)) o (spec_step (ledger_of ops) o) = false.
 Proof. exact events_refuted_overwrite_lemma. Qed.
 Print Assumptions C16_events_exact_refuted_adapter_overwrite.
 
@@ -111,7 +147,7 @@ Theorem C16_events_exact_partial : forall (W : world) (hashable : value -> bool)
   (forall a b, veq a = veq b -> hashable a = hashable b) ->
   forall ops o, forallb (ok_op cls) ops = true -> ok_op cls o = true ->
     benign (ledger_of ops) o = true ->
-    events_ok (evs_of (cstep W hashable (final W hashable ops) o)) (spec_step (ledger_of ops) o) = true.
+    events_ok (evs_of (cstep W hashable (final W hashable ops) o)) o (spec_step (ledger_of ops) o) = true.
 Proof. exact events_partial_lemma. Qed.
 Print Assumptions C16_events_exact_partial.
 
@@ -128,18 +164,19 @@ Print Assumptions C16_unregister_returns_removed.
 
 (* registerUtility on a key that lists (oc, oi, of): an equal (component, info) is a no-op -- state
    unchanged, no event; anything else yields exactly Unregistered(old) then Registered(new);
-   on a key that lists nothing: exactly Registered(new) *)
+   on a key that lists nothing: exactly Registered(new).  With event=False the Registered event is
+   left out (the Unregistered event of the displaced registration is not) *)
 Theorem C16_replace_order : forall (W : world) (hashable : value -> bool) (cls : nat -> nat),
   (forall a b, veq a = veq b -> hashable a = hashable b) ->
-  forall ops c p n i f, forallb (ok_op cls) ops = true -> okv cls c = true ->
+  forall ops c p n i f ev, forallb (ok_op cls) ops = true -> okv cls c = true ->
     let st := final W hashable ops in
     (forall oc oi of, In (RU p n oc oi of) (registeredUtilities st) ->
        if v_eq oc c && Nat.eqb oi i
-       then cstep W hashable st (RegUtility c p n i f) = (st, RNone, [])
-       else evs_of (cstep W hashable st (RegUtility c p n i f))
-            = [Unregistered (RU p n oc oi of); Registered (RU p n c i f)])
+       then cstep W hashable st (RegUtility c p n i f ev) = (st, RNone, [])
+       else evs_of (cstep W hashable st (RegUtility c p n i f ev))
+            = Unregistered (RU p n oc oi of) :: (if ev then [Registered (RU p n c i f)] else []))
     /\ ((forall oc oi of, ~ In (RU p n oc oi of) (registeredUtilities st)) ->
-        evs_of (cstep W hashable st (RegUtility c p n i f)) = [Registered (RU p n c i f)]).
+        evs_of (cstep W hashable st (RegUtility c p n i f ev)) = if ev then [Registered (RU p n c i f)] else []).
 Proof. exact replace_order_lemma. Qed.
 Print Assumptions C16_replace_order.
 
@@ -172,6 +209,50 @@ Theorem C16_queryUtility_from_listings : forall (W : world) (hashable : value ->
 Proof. exact queryUtility_lemma. Qed.
 Print Assumptions C16_queryUtility_from_listings.
 
+(* ---- several Components objects connected by __bases__ (Model/ComponentsSys.v): histories of
+   SNew bases / SSetBases r bases / SOp r <one of the calls above on object r>.
+   [sys_wf]: objects exist when used, __bases__ name earlier objects, an object still listed as a
+   base is not re-initialised. *)
+
+(* listings only list local registrations: whatever its bases, each object lists exactly the ledger
+   of the operations addressed to it *)
+Theorem C16_listings_local : forall (W : world) (hashable : value -> bool) (cls : nat -> nat),
+  (forall a b, veq a = veq b -> hashable a = hashable b) ->
+  forall ops i, sys_wf ops = true ->
+    forallb (fun o => match o with SOp _ c => ok_op cls c | _ => true end) ops = true ->
+    let st := comp (sys_final W hashable ops) i in
+    registeredUtilities st = map rec_u (l_u (ledger_of (proj i ops))) /\
+    registeredAdapters st = map rec_a (l_a (ledger_of (proj i ops))) /\
+    registeredSubscriptionAdapters st = map rec_s (l_s (ledger_of (proj i ops))) /\
+    registeredHandlers st = map rec_h (l_h (ledger_of (proj i ops))).
+Proof. exact listings_local_lemma. Qed.
+Print Assumptions C16_listings_local.
+
+(* the query methods follow the current bases: the registries consulted are those of the C3 order
+   [fresh_ro] of the CURRENT __bases__ graph; every object of that chain is in the state a single
+   Components reaches on the operations addressed to it -- so all theorems above (storage determined
+   by its listings, pruning, probe) hold of each link --; single lookups return the answer of the
+   nearest object that has one; getAllUtilitiesRegisteredFor / subscribers / handle return what
+   every object of the chain contributes, bases first.  (That the real registries -- with lookup
+   caches, stored ``ro`` and change propagation -- compute these walkers is C05 / C06.) *)
+Theorem C16_queries_follow_bases : forall (W : world) (hashable : value -> bool) ops r,
+  let S := sys_final W hashable ops in
+  chain S r = fresh_ro (bases_view S) r
+  /\ (sys_wf ops = true -> forall j, comp S j = final W hashable (proj j ops))
+  /\ (forall p n, sys_queryUtility W S r p n = first_some (fun j => queryUtility W (comp S j) p n) (chain S r))
+  /\ (forall p, sys_getAllUtilitiesRegisteredFor W S r p
+                = flat_map (fun j => getAllUtilitiesRegisteredFor W (comp S j) p) (rev (chain S r)))
+  /\ (forall call os p n, sys_queryMultiAdapter W call S r os p n
+                          = match first_some (fun j => uncached_lookup W [c_adapters (comp S j)] (map fst os) p n) (chain S r) with
+                            | Some f => call f (map snd os)
+                            | None => None
+                            end)
+  /\ (forall call os p, snd (sys_subscribers W call S r os p)
+                        = flat_map (fun j => snd (subscribersOf W call (comp S j) os p)) (rev (chain S r)))
+  /\ (forall os, sys_handle W S r os = flat_map (fun j => handle W (comp S j) os) (rev (chain S r))).
+Proof. exact queries_follow_bases_lemma. Qed.
+Print Assumptions C16_queries_follow_bases.
+
 (* ---- the tie to the source TEXT.  Gen/ComponentsKernel.v is rewritten on every run by the
    fail-closed translator harness/translate/components.py from the current registry.py; the
    theorems below are re-checked against that text and say that what the source says IS the model
@@ -179,8 +260,8 @@ Print Assumptions C16_queryUtility_from_listings.
    the inference helpers _getUtilityProvided, _getName, _getAdapterProvided, _getAdapterRequired,
    which the model leaves out: the equalities are for calls that pass provided / required
    explicitly ([gar] then only converts None to Interface) and components without a
-   __component_name__.  Still hand-modelled: rebuildUtilityRegistryFromLocalCache, the query
-   methods, __init__, the _utility_registrations_cache property, the inference helpers. *)
+   __component_name__.  Still hand-modelled: __init__ / __bases__, the _utility_registrations_cache property, the
+   inference helpers, and what the registries' own lookup / subscriptions / queryAdapter do (C04-C08). *)
 Theorem C16_generated_counter_eq_model : forall l c n,
   g_counter_init l = l /\ g_counter_getitem l c = cnt l c /\
   g_counter_setitem l c n = cnt_set l c n /\ g_counter_delitem l c = cnt_del l c.
@@ -216,8 +297,8 @@ Theorem C16_generated_utilities_eq_model :
   forall (W : world) (hashable : value -> bool) (gup : value -> option spec) (gn : value -> name),
   (forall c, gn c = 0) ->
   forall st c c' co f p po n i ev,
-    g_registerUtility W hashable gup gn st (Some c) (Some p) n i true None = cstep W hashable st (RegUtility c p n i None) /\
-    g_registerUtility W hashable gup gn st None (Some p) n i true (Some (f, c)) = cstep W hashable st (RegUtility c p n i (Some f)) /\
+    g_registerUtility W hashable gup gn st (Some c) (Some p) n i ev None = cstep W hashable st (RegUtility c p n i None ev) /\
+    g_registerUtility W hashable gup gn st None (Some p) n i ev (Some (f, c)) = cstep W hashable st (RegUtility c p n i (Some f) ev) /\
     g_registerUtility W hashable gup gn st (Some c') po n i ev (Some (f, c)) = cstep W hashable st (UtilityBoth false c' p n) /\
     g_unregisterUtility W hashable gup st co (Some p) n None = cstep W hashable st (UnregUtility co p n) /\
     g_unregisterUtility W hashable gup st None (Some p) n (Some (f, c)) = cstep W hashable st (UnregUtility (Some c) p n) /\
@@ -225,8 +306,8 @@ Theorem C16_generated_utilities_eq_model :
     g_registeredUtilities st = registeredUtilities st.
 Proof.
   intros W hashable gup gn Hgn st c c' co f p po n i ev.
-  exact (conj (g_registerUtility_eq W hashable gup gn Hgn st c p n i)
-        (conj (g_registerUtility_factory_eq W hashable gup gn Hgn st f c p n i)
+  exact (conj (g_registerUtility_eq W hashable gup gn Hgn st c p n i ev)
+        (conj (g_registerUtility_factory_eq W hashable gup gn Hgn st f c p n i ev)
         (conj (g_registerUtility_both W hashable gup gn st f c c' po n i ev)
         (conj (g_unregisterUtility_eq W hashable gup st co p n)
         (conj (g_unregisterUtility_factory_eq W hashable gup st f c p n)
@@ -238,13 +319,13 @@ Theorem C16_generated_adapters_eq_model :
   forall (W : world) (gn : value -> name) (gap : value -> option spec)
          (gar : option value -> option (list (option spec)) -> option (list spec)),
   (forall c, gn c = 0) -> (forall f req, gar f (Some req) = Some (map conv req)) ->
-  forall st f fo req p n i,
-    g_registerAdapter W gn gap gar st f (Some req) (Some p) n i true = cstep W (fun _ => true) st (RegAdapter f req p n i) /\
+  forall st f fo req p n i ev,
+    g_registerAdapter W gn gap gar st f (Some req) (Some p) n i ev = cstep W (fun _ => true) st (RegAdapter f req p n i ev) /\
     g_unregisterAdapter W gap gar st fo (Some req) (Some p) n = cstep W (fun _ => true) st (UnregAdapter fo req p n) /\
     g_registeredAdapters st = registeredAdapters st.
 Proof.
-  intros W gn gap gar Hgn Hgar st f fo req p n i.
-  exact (conj (g_registerAdapter_eq W gn gap gar Hgn Hgar st f req p n i)
+  intros W gn gap gar Hgn Hgar st f fo req p n i ev.
+  exact (conj (g_registerAdapter_eq W gn gap gar Hgn Hgar st f req p n i ev)
         (conj (g_unregisterAdapter_eq W gap gar Hgar st fo req p n) (g_registeredAdapters_eq st))).
 Qed.
 Print Assumptions C16_generated_adapters_eq_model.
@@ -253,22 +334,41 @@ Theorem C16_generated_subscriptions_eq_model :
   forall (W : world) (gap : value -> option spec)
          (gar : option value -> option (list (option spec)) -> option (list spec)),
   (forall f req, gar f (Some req) = Some (map conv req)) ->
-  forall st f fo req p n i,
-    g_registerSubscriptionAdapter W gap gar st f (Some req) (Some p) n i true = cstep W (fun _ => true) st (RegSub f req p n i) /\
+  forall st f fo req p n i ev,
+    g_registerSubscriptionAdapter W gap gar st f (Some req) (Some p) n i ev = cstep W (fun _ => true) st (RegSub f req p n i ev) /\
     g_unregisterSubscriptionAdapter W gap gar st fo (Some req) (Some p) n = cstep W (fun _ => true) st (UnregSub fo req p n) /\
-    g_registerHandler W gar st f (Some req) n i true = cstep W (fun _ => true) st (RegHandler f req n i) /\
+    g_registerHandler W gar st f (Some req) n i ev = cstep W (fun _ => true) st (RegHandler f req n i ev) /\
     g_unregisterHandler W gar st fo (Some req) n = cstep W (fun _ => true) st (UnregHandler fo req n) /\
     g_registeredSubscriptionAdapters st = registeredSubscriptionAdapters st /\
     g_registeredHandlers st = registeredHandlers st.
 Proof.
-  intros W gap gar Hgar st f fo req p n i.
-  exact (conj (g_registerSubscriptionAdapter_eq W gap gar Hgar st f req p n i)
+  intros W gap gar Hgar st f fo req p n i ev.
+  exact (conj (g_registerSubscriptionAdapter_eq W gap gar Hgar st f req p n i ev)
         (conj (g_unregisterSubscriptionAdapter_eq W gap gar Hgar st fo req p n)
-        (conj (g_registerHandler_eq W gar Hgar st f req n i)
+        (conj (g_registerHandler_eq W gar Hgar st f req n i ev)
         (conj (g_unregisterHandler_eq W gar Hgar st fo req n)
         (conj (g_registeredSubscriptionAdapters_eq st) (g_registeredHandlers_eq st)))))).
 Qed.
 Print Assumptions C16_generated_subscriptions_eq_model.
+
+Theorem C16_generated_rebuild_eq_model : forall (W : world) rebuild st,
+  g_rebuildUtilityRegistry W rebuild st = rebuildUtilityRegistry W rebuild st.
+Proof. exact g_rebuildUtilityRegistry_eq. Qed.
+Print Assumptions C16_generated_rebuild_eq_model.
+
+(* the query methods delegate to the right registry with the right arguments ([u_regs] / [a_regs]:
+   the ``utilities`` / ``adapters`` registries along the object's base chain) *)
+Theorem C16_generated_queries_eq_model : forall (W : world) (call : value -> list nat -> option nat) S r,
+  (forall p n, g_queryUtility W (u_regs S r) p n = sys_queryUtility W S r p n) /\
+  (forall p, g_getUtilitiesFor W (u_regs S r) p = sys_getUtilitiesFor W S r p) /\
+  (forall p, g_getAllUtilitiesRegisteredFor W (u_regs S r) p = sys_getAllUtilitiesRegisteredFor W S r p) /\
+  (forall o p n, g_queryAdapter W call (a_regs S r) o p n = sys_queryMultiAdapter W call S r [o] p n) /\
+  (forall os p n, g_queryMultiAdapter W call (a_regs S r) os p n = sys_queryMultiAdapter W call S r os p n) /\
+  (forall os p, g_getAdapters W call (a_regs S r) os p = sys_getAdapters W call S r os p) /\
+  (forall os p, g_subscribers W call (a_regs S r) os p = sys_subscribers W call S r os p) /\
+  (forall os, g_handle W call (a_regs S r) os = sys_handle W S r os).
+Proof. exact g_queries_eq. Qed.
+Print Assumptions C16_generated_queries_eq_model.
 
 (* ---- non-vacuity: a history with equal-but-distinct (1, 2) and unhashable (5, 6) components,
    a replacement, removals, adapters, subscription adapters and handlers meets the hypotheses and
@@ -302,9 +402,11 @@ Proof. vm_compute. repeat split. Qed.
 
 (* a replaced utility (the 4th operation replaces component 1 by the unhashable 6 under (3, '')) *)
 Example C16_ex_replace :
-  evs_of (cstep W0 hashable0 (final W0 hashable0 (firstn 3 ex_ops)) (RegUtility (mkV 6 5) 3 0 0 None))
+  evs_of (cstep W0 hashable0 (final W0 hashable0 (firstn 3 ex_ops)) (RegUtility (mkV 6 5) 3 0 0 None true))
   = [Unregistered (RU 3 0 (mkV 1 1) 0 None); Registered (RU 3 0 (mkV 6 5) 0 None)] /\
-  evs_of (cstep W0 hashable0 (final W0 hashable0 (firstn 3 ex_ops)) (RegUtility (mkV 2 1) 3 0 0 (Some 9))) = [].
+  evs_of (cstep W0 hashable0 (final W0 hashable0 (firstn 3 ex_ops)) (RegUtility (mkV 2 1) 3 0 0 (Some 9) true)) = [] /\
+  evs_of (cstep W0 hashable0 (final W0 hashable0 (firstn 3 ex_ops)) (RegUtility (mkV 6 5) 3 0 0 None false))
+  = [Unregistered (RU 3 0 (mkV 1 1) 0 None)].
 Proof. vm_compute. repeat split. Qed.
 
 (* a lookup through the hierarchy: utility 6 is listed under interface 3, which extends 0 *)
@@ -321,3 +423,23 @@ Example C16_ex_oracles :
      (fun (_ : option value) (r : option (list (option spec))) => option_map (map conv) r) f (Some req)
      = Some (map conv req)).
 Proof. split; reflexivity. Qed.
+
+(* two objects: object 1 (bases = (0,)) sees object 0's utility and subscription adapter through its
+   chain [1; 0]; after re-basing it away it does not *)
+Example C16_ex_bases :
+  sys_wf sys_ex_ops = true /\
+  chain (sys_final W0 hashable0 sys_ex_ops) 1 = [1; 0] /\
+  sys_queryUtility W0 (sys_final W0 hashable0 sys_ex_ops) 1 3 0 = Some (mkV 1 1) /\
+  registeredUtilities (comp (sys_final W0 hashable0 sys_ex_ops) 1) = [RU 3 1 (mkV 4 4) 0 None] /\
+  snd (sys_subscribers W0 (fun _ _ => None) (sys_final W0 hashable0 sys_ex_ops) 1 [(1, 0)] 2) = [mkV 4 4; mkV 3 3] /\
+  sys_queryUtility W0 (sys_final W0 hashable0 (sys_ex_ops ++ [SSetBases 1 []])) 1 3 0 = None.
+Proof. vm_compute. repeat split. Qed.
+
+(* the repair on a tampered state: the utilities registry of the example state emptied behind the
+   object's back is rebuilt from the two listed utilities *)
+Example C16_ex_repair :
+  let st := with_utils (final W0 hashable0 ex_ops) empty_reg in
+  NoDup (map fst (c_ureg st)) /\ probe st = (2, 0, 2, 0) /\
+  snd (rebuildUtilityRegistry W0 true st) = (2, 0, 1, 1) /\
+  probe (fst (rebuildUtilityRegistry W0 true st)) = (0, 2, 0, 2).
+Proof. vm_compute. repeat split; repeat constructor; cbn; intuition discriminate. Qed.
